@@ -234,19 +234,24 @@ Proof.
       * destruct (exec_sync n ws (apply1 m1 w) (apply1 F w) None f) as [[[x1 x2] x3] x4] eqn:E. injection H as <- <- <- <-.
         apply (Hrec None x3); [exact E | reflexivity].
 Qed.
-Lemma run_attempt_mem u n f : forall phs m1 m2 F c k r a1 F1 c1 ex,
-  run_attempt u n m1 F c phs k f = (r, (a1, F1, c1), ex) -> run_attempt u n m2 F c phs k f = (r, (apply_ws m2 ex, F1, c1), ex).
+(* the same attempt on another tag memory m2 whose readable image [vw2 m2] follows the executed commands *)
+Lemma run_attempt_mem u n f vw1 vw2 : forall phs m1 m2 F c k r a1 F1 c1 ex,
+  run_attempt u n vw1 m1 F c phs k f = (r, (a1, F1, c1), ex) ->
+  (forall j, vw2 (apply_ws m2 (firstn j ex)) = vw1 (apply_ws m1 (firstn j ex))) ->
+  run_attempt u n vw2 m2 F c phs k f = (r, (apply_ws m2 ex, F1, c1), ex).
 Proof.
-  induction phs as [|ph phs IH]; intros m1 m2 F c k r a1 F1 c1 ex H.
+  induction phs as [|ph phs IH]; intros m1 m2 F c k r a1 F1 c1 ex H Hv.
   - cbn in *. injection H as <- <- <- <- <-. reflexivity.
   - cbn [run_attempt] in *. destruct (ph c) as [c'| | |]; try (injection H as <- <- <- <- <-; reflexivity).
     destruct (exec_sync n (sync_cmds u F c') m1 F k f) as [[[x1 x2] x3] x4] eqn:E.
+    pose proof (exec_sync_mem n f _ m1 m1 _ _ _ _ _ _ E) as E1. rewrite E in E1. injection E1 as Ex1.
     rewrite (exec_sync_mem n f _ m1 m2 _ _ _ _ _ _ E). destruct x4 as [k'|].
-    + destruct (run_attempt u n x1 x2 c' phs k' f) as [[r2 [[y1 y2] y3]] ex2] eqn:E2. injection H as <- <- <- <- <-.
-      rewrite (IH _ (apply_ws m2 x3) _ _ _ _ _ _ _ _ E2). rewrite apply_ws_app. reflexivity.
-    + injection H as <- <- <- <- <-. reflexivity.
+    + destruct (run_attempt u n vw1 x1 x2 c' phs k' f) as [[r2 [[y1 y2] y3]] ex2] eqn:E2. injection H as <- <- <- <- <-.
+      rewrite (IH x1 (apply_ws m2 x3) _ _ _ _ _ _ _ _ E2).
+      * rewrite apply_ws_app. reflexivity.
+      * intro j. specialize (Hv (length x3 + j)%nat). rewrite firstn_app_2, !apply_ws_app in Hv. rewrite <- Ex1 in Hv. exact Hv.
+    + injection H as <- <- <- <- <-. specialize (Hv (length x3)). rewrite firstn_all in Hv. rewrite Hv, <- Ex1. reflexivity.
 Qed.
-
 Lemma exec_sync_nofault n f : forall ws m F, (forall w, In w ws -> 0 <= fst w /\ fst w + len (snd w) <= n) ->
   exists m' F' ex, exec_sync n ws m F None f = (m', F', ex, Some None).
 Proof.
